@@ -334,6 +334,12 @@ def maxKey : List (Nat × BasePath) → Option Nat
     | none => some k
     | some j => some (if k ≤ j then j else k)
 
+/-- `source_manifest.base_paths.keys().max().map(|id| *id + 1).unwrap_or(0)` -/
+def newBaseId (table : List (Nat × BasePath)) : Nat :=
+  match maxKey table with
+  | some k => k + 1
+  | none => 0
+
 /-- give `bid` to every listed id that has no base id yet -/
 def fillBase (old : List (Nat × Nat)) (ids : List Nat) (bid : Nat) : List (Nat × Nat) :=
   old ++ (ids.filter (fun i => (lookup old i).isNone)).map (fun i => (i, bid))
@@ -342,9 +348,7 @@ def fillBase (old : List (Nat × Nat)) (ids : List Nat) (bid : Nat) : List (Nat 
     id get the new one; EVERY index gets it (`index.base_id = Some(new_base_id)` overwrites); the base table gains
     `(new id ↦ ref_path, is_dataset_root = true)` -/
 def cloneBases (src : Root) (m : Manifest) (b : Bases) : Bases :=
-  let nid := match maxKey b.table with
-    | some k => k + 1
-    | none => 0
+  let nid := newBaseId b.table
   { table := b.table ++ [(nid, ⟨src, true⟩)],
     dataBase := fillBase b.dataBase (m.frags.flatMap (fun f => f.files.map (·.id))) nid,
     delBase := fillBase b.delBase (m.frags.filterMap (·.del)) nid,
